@@ -81,12 +81,12 @@ func TestVerifC04(t *testing.T) {
 		}
 
 		type gen struct {
-			iface  string
-			t      time.Duration
-			path   string
-			life   int64
-			fwd    bool
-			ra     *model.RA
+			iface string
+			t     time.Duration
+			path  string
+			life  int64
+			fwd   bool
+			ra    *model.RA
 		}
 		var gens []gen
 		var viol string
